@@ -1,0 +1,7 @@
+//go:build !verif
+
+package collect
+
+// simHeapAlloc is the identity in normal builds; with the verif build tag the
+// simulation harness can substitute the heap reading used by checkAlloc.
+func simHeapAlloc(_ *InMemCollector, v uint64) uint64 { return v }
